@@ -21,6 +21,7 @@ func run(c *hlib.Ctx) {
 	runVar(c)
 	runMap(c)
 	runCamera(c)
+	runDirectional(c)
 	runCast(c)
 	runImages(c)
 }
